@@ -6,9 +6,10 @@
 (* bytes (computed by independent stdlib decoding) / exception class, and what the pool did with  *)
 (* the connection on the next request.  The monitor is the Rules layer itself (BodyRules.tla:     *)
 (* Clause, MonNext, Final -- the operators the model Body.tla is checked against); it is total:   *)
-(* one VERDICT line per trace, naming the first failing clause and the event index, and it moves  *)
-(* on to the next trace.  Where a cut of a chunked body falls (zone) is decided here from the     *)
-(* byte layout of the wire, not by the harness.                                                   *)
+(* every event of every trace is consumed, and one VERDICT line per trace names the first failing *)
+(* clause with its event index, the clause failing at the end of the trace (connection reuse) and *)
+(* the three-valued class of the response.  Where a cut of a chunked body falls (zone) is decided *)
+(* here from the byte layout of the wire, not by the harness.                                     *)
 EXTENDS BodyRules, Json, IOUtils, TLC
 
 Traces == JsonDeserialize(IOEnv.TRACE_FILE)
